@@ -5,6 +5,7 @@ import BU.Spec.CurveLaws
 import BU.Model.Keys
 import BU.Proofs.Base58Lemmas
 import BU.Proofs.KeyLemmas
+import BU.Proofs.CurveLawsFinal
 /-!
 # C09 — private/public key encodings (WIF, SEC, x-only) round-trip and match the curve
 
@@ -175,5 +176,13 @@ theorem offcurve_rejected (x : Nat) (hx : x < 2 ^ 256) (h : sqrtAll ((x ^ 3 + 7)
   · refine ⟨.indexError, ?_⟩
     unfold pubFromBytes
     simp [Py.ofBE_beBytes 32 x hx', h]
+
+/-! ### without hypotheses: `CurveLaws` is proved (`BU/Proofs/CurveLawsFinal.lean`) -/
+
+theorem sec_roundtrip_unconditional (d : Nat) (hd : 1 ≤ d ∧ d < n) (x y : Nat) (hP : mul G d = some (x, y)) :
+    pubFromBytes (pubToBytes (x, y) true) = .ok (x, y) ∧
+    pubFromBytes (pubToBytes (x, y) false) = .ok (x, y) ∧
+    pubFromBytes (pubXOnly (x, y)) = .ok (x, if y % 2 = 0 then y else p - y) :=
+  sec_roundtrip CurveLawsFinal.curveLaws d hd x y hP
 
 end C09
